@@ -185,25 +185,41 @@ def run(tier):
             failures.append(dict(kind='history', summary=f'{how} of a local shuffle n={n} buffer_size={B}: {out} is not a permutation', config=dict(kind='localcopy', n=n, B=B, how=how)))
         elif any(j > i + B - 1 for i, j in enumerate(out)):
             failures.append(dict(kind='history', summary=f'{how} of a local shuffle n={n} buffer_size={B}: {out} emits an example more than buffer_size - 1 positions early', config=dict(kind='localcopy', n=n, B=B, how=how)))
-    # two local-shuffle iterators in flight over one object: buffers are per iterator
-    for _ in range(200 if big else 30):
-        n, B = r.randint(1, 7), r.randint(1, 4)
+    # two or three local-shuffle iterators in flight over one object, started at different times and advanced in any order
+    # (random next()-scripts, plus the staggered ones in which an iterator makes its first step while another one is in its tail
+    # phase): buffers are per iterator, so every iterator yields a permutation within its window
+    for _ in range(600 if big else 120):
+        n, B = r.randint(1, 6), r.randint(1, 7)
+        k = r.choice([2, 2, 3])
         ds = ld.new(list(range(n))).shuffle(True, rng=np.random.RandomState(r.randint(0, 999)), buffer_size=B)
-        a, b = iter(ds), iter(ds)
-        oa, ob = [], []
-
-        def pull(it, out):
-            try:
-                out.append(int(next(it)))
-            except StopIteration:
-                pass
-        for _k in range(n + 1):
-            if r.random() < 0.5:
-                pull(a, oa); pull(b, ob)
-            else:
-                pull(b, ob); pull(a, oa)
-        if sorted(oa) != list(range(n)) or sorted(ob) != list(range(n)):
-            failures.append(dict(kind='history', summary=f'two local-shuffle iterators in flight: {oa} / {ob}', config=dict(kind='local2', n=n, B=B)))
+        script = [i for i in range(k) for _j in range(n + 1)]
+        mode = r.random()
+        if mode < 0.5:
+            r.shuffle(script)
+        elif mode < 0.8:
+            # iterator 0 runs until only t items of its tail are left, then the others run, then it finishes
+            t = r.randint(0, min(n, B))
+            script = [0] * (n - t) + [i for i in range(1, k) for _j in range(n + 1)] + [0] * (t + 1)
+        else:
+            cut = r.randint(0, n)
+            script = [0] * cut + [1] * (n + 1) + [0] * (n + 1 - cut) + [2] * (n + 1 if k == 3 else 0)
+        its, outs2 = {}, {}
+        try:
+            for i in script:
+                if i not in its:
+                    its[i] = iter(ds); outs2[i] = []
+                try:
+                    outs2[i].append(int(next(its[i])))
+                except StopIteration:
+                    pass
+        except Exception as e:
+            failures.append(dict(kind='history', summary=f'local-shuffle iterators in flight (n={n}, buffer_size={B}, script {script}) raised {type(e).__name__}: {e}'[:400], config=dict(kind='local2', n=n, B=B, script=script)))
+            continue
+        for i, o in outs2.items():
+            if sorted(o) != list(range(n)) or any(j > p + B - 1 for p, j in enumerate(o)):
+                failures.append(dict(kind='history', summary=f'local shuffle n={n} buffer_size={B}, iterators in flight advanced by the next()-script {script}: iterator {i} yielded {o} - '
+                                     f'not a permutation of range({n}) within its window'[:600], config=dict(kind='local2', n=n, B=B, script=script)))
+                break
     # (a'') plain (non-frozen) copies of a reshuffle object - explicit copy(), copy of a copy, a copy taken through a mapped
     #       stage, the copy the profiling wrapper takes - are objects of their own: with at most ONE iterator in flight per object,
     #       interleaved with epochs of the original and of the other copies, every iterator yields a permutation
